@@ -195,6 +195,7 @@ def tlc_generate(module, cfg, **kw):
         except Exception:
             pass
     res.printed = vals
+    res.out = res.out[-20000:]    # the printed values were parsed: do not keep the raw text (hundreds of MB) alive
     log("[tlc-gen] %s/%s: %d values, %d distinct states, %.1fs" % (module, cfg, len(vals), res.distinct, res.wall))
     return res
 
